@@ -17,8 +17,9 @@ RULE = ("exhaustive products of finite menus of free encoding choices x small ab
         "non-default encoding choice that denote >= 1 object and were decoded exactly (distinct by construction: the plan is de-duplicated by "
         "case spec). Tri-state cases (legal by the letter of protobuf/XML/o5m but outside what the format descriptions promise or the library "
         "documents) are counted by outcome under tri/..., never alarmed.")
-DEADLINE = {"quick": 240, "thorough": 1500}
-PARTS = [("tiny", 1), ("agree", 2), ("o5m", 16), ("opl", 16), ("xml", 16), ("pbf", 16)]
+DEADLINE = {"quick": 200, "thorough": 1100}
+# part, shards, weight of the part in the time budget (quick, thorough); time a part does not use goes to the following ones
+PARTS = [("tiny", 1, (1, 1)), ("agree", 2, (1, 1)), ("o5m", 16, (6, 3)), ("xml", 16, (6, 12)), ("opl", 16, (6, 10)), ("pbf", 16, (6, 40))]
 
 
 def build(ctx):
@@ -32,8 +33,15 @@ def run(ctx):
     if getattr(ctx, "build_only", False):
         return
     env = {"PYTHONDONTWRITEBYTECODE": "1", "OSMIUM_POOL_THREADS": "2", "C02_PYTHON": sys.executable}
-    for part, shards in PARTS:
-        ctx.run_harness(exe, ["--part", part], shards=shards, env=env)
+    import time
+    wi = 0 if ctx.tier == "quick" else 1
+    for n, (part, shards, w) in enumerate(PARTS):
+        rest = sum(p[2][wi] for p in PARTS[n:])
+        budget = max(5, int(ctx.remaining() * w[wi] / rest))
+        t = time.time()
+        # (the harness takes the last --deadline it is given)
+        ctx.run_harness(exe, ["--part", part, "--deadline", str(budget)], shards=shards, env=env)
+        ctx.notes.append("part %s: %.1fs of a budget of %ds" % (part, time.time() - t, budget))
     ctx.assume("the Python encoders implement the published format descriptions (PBF: protobuf encoding guide + fileformat.proto/osmformat.proto; "
                "o5m: wiki O5m; OSM XML / OsmChange wiki + XML 1.0; OPL manual); coordinates in PBF files are chosen exactly representable in the "
                "block's granularity/offset, so no rounding rule is involved")
